@@ -2,9 +2,16 @@ import Driver.OpsCore
 import Driver.OpsRoads
 import Driver.OpsAlloc
 import Driver.OpsFn
+import Driver.OpsC03
 namespace Driver
 
-def handlers : List Handler := [handleCore, handleRoads, handleAlloc, handleFn]
+def handlers : List Handler := [
+  handleCore,
+  handleRoads,
+  handleAlloc,
+  handleFn,
+  handleC03,
+]
 
 def step (st : St) (line : String) : St × String :=
   match (line.trimAscii.toString.splitOn " ").filter (· ≠ "") with
